@@ -391,6 +391,7 @@ def step (st : State) (toks : List String) : Option (State × String) :=
         if out = "ok" then
           pure ((st'.setNode d { file := (st.node d).file, subsDir := 0 }), "err lock-timeout")
         else pure (st', out)
+  | ["tag", _] => pure (st, "ok")
   | ["inspect", db] => do
     let i ← dbIdx db
     pure (st, showNode (st.node i))
